@@ -276,4 +276,29 @@ CHECKS = {
                 "reference affine is the one the file states (float32 in "
                 "NIfTI).",
     },
+    "C03": {
+        "engine": "E-STATE", "level": "model_checking",
+        "technique": "explicit-state exploration of write histories on the "
+                     "real PrecomputedIO (all ordered selections, dedup on "
+                     "directory tree + model) with same/fresh-handle reads "
+                     "in every state; full coordinate lattice",
+        "text": "For every configuration (5 data types x 1-3 channels x raw "
+                "/ compressed_segmentation with cubic, small and non-cubic "
+                "blocks / JPEG xy,xz x six accessors incl. sharded with "
+                "both buffering strategies x one- and two-scale infos) "
+                "every ordered selection of up to 3 (quick) / 4 (thorough) "
+                "writes to distinct chunks (interior, border, corner, "
+                "coarse scale) with contents that include big-endian and "
+                "non-contiguous arrays is executed; in every state every "
+                "chunk of every scale is read by the writing handle and by "
+                "a freshly opened accessor and compared with a dict model "
+                "(exact for raw/compressed_segmentation, |error| <= 8 on "
+                "calibrated ramps for JPEG; unwritten chunks must not yield "
+                "data). All 11^6 coordinate tuples around the grid are "
+                "compared with the grid predicate and every rejected "
+                "near-valid tuple is offered to write_chunk (must raise, "
+                "tree unchanged).",
+        "note": "Volumes of 5x4x3 voxels; JPEG bound depends on the "
+                "installed libjpeg (stated in ASSUMPTIONS).",
+    },
 }
